@@ -33,6 +33,8 @@ def resid : Ctl V E → Option (Prog V E)
   | .enter T r k => some (.get T r k)
   | .pushed T r k => some (.get T r k)
   | .waiting T r k => some (.get T r k)
+  | .logging T r k => some (.get T r k)
+  | .loading _ p => some p
   | .popping _ _ k res => some (k res)
   | .storing res => some (.ret res)
   | _ => none
@@ -152,10 +154,17 @@ theorem runTo_spec (wf : WF d filt rank) (hN : ∀ r, rank r < N) (cfg : Cfg) (s
     rw [hadv] at h3
     simp only at h3
     refine ⟨done, hout, ?_⟩
-    simp only [applyAdv, resid]
-    refine ⟨cur, hcs, h3.1, ?_, ?_⟩
-    · rw [h3.2]; exact hst
-    · intro res hres; cases hres
+    cases hcb : cfg.cb with
+    | true =>
+      simp only [applyAdv, hcb, if_true, resid]
+      refine ⟨cur, hcs, h3.1, ?_, ?_⟩
+      · rw [h3.2]; exact hst
+      · intro res hres; cases hres
+    | false =>
+      simp only [applyAdv, hcb, Bool.false_eq_true, if_false, resid]
+      refine ⟨cur, hcs, h3.1, ?_, ?_⟩
+      · rw [h3.2]; exact hst
+      · intro res hres; cases hres
   | fin res =>
     rw [hadv] at h3
     simp only at h3
@@ -194,6 +203,21 @@ theorem runTo_spec (wf : WF d filt rank) (hN : ∀ r, rank r < N) (cfg : Cfg) (s
           rw [hres, hv]; exact hrest
         · intro res' hres'; cases hres'
 
+/-- the same for the start of a compute / reload run, which may stop inside `Log::load_object` first -/
+theorem startLoad_spec (wf : WF d filt rank) (hN : ∀ r, rank r < N) (cfg : Cfg) (sh : Shared V E)
+    (hi : SInv d filt (ans d rank) sh) (t : Thread V E) (r : Nat) (p : Prog V E) (cs done : List (Prog V E)) (cur : Prog V E)
+    (hout : t.out = done.map (canon (ans d rank) d)) (hcs : cs = done ++ cur :: t.todo)
+    (hp : Fine filt (fun r' => rank r' < bnd rank N t.stack) p)
+    (hst : StackOK d filt rank N (ans d rank) (canon (ans d rank) d p) t.stack cur) :
+    SInv d filt (ans d rank) (startLoad d cfg sh t r p).1 ∧ (startLoad d cfg sh t r p).1.slots = sh.slots ∧
+      TInv d filt rank N (ans d rank) cs (startLoad d cfg sh t r p).2 := by
+  unfold startLoad
+  split
+  · refine ⟨hi, rfl, done, hout, ?_⟩
+    simp only [resid]
+    exact ⟨cur, hcs, hp, hst, by intro res h; cases h⟩
+  · exact runTo_spec wf hN cfg sh hi t p cs done cur hout hcs hp hst
+
 theorem afterLookup_spec (wf : WF d filt rank) (hN : ∀ r, rank r < N) (cfg : Cfg) (sh : Shared V E)
     (hi : SInv d filt (ans d rank) sh) (t : Thread V E) (T r : Nat) (k : Res V E → Prog V E) (T' : Nat) (res : Res V E)
     (hres : res = ans d rank T' r)
@@ -204,10 +228,10 @@ theorem afterLookup_spec (wf : WF d filt rank) (hN : ∀ r, rank r < N) (cfg : C
     SInv d filt (ans d rank) (afterLookup d cfg sh t T r k T' res).1 ∧ (afterLookup d cfg sh t T r k T' res).1.slots = sh.slots ∧
       TInv d filt rank N (ans d rank) cs (afterLookup d cfg sh t T r k T' res).2 := by
   have hne : ans d rank T r ≠ .oof := ans_ne_oof wf N r T (hN r)
-  have fallback : SInv d filt (ans d rank) (runTo d cfg sh { t with stack := ⟨T, r, false, k⟩ :: t.stack } (d.body T r)).1 ∧
-      (runTo d cfg sh { t with stack := ⟨T, r, false, k⟩ :: t.stack } (d.body T r)).1.slots = sh.slots ∧
-      TInv d filt rank N (ans d rank) cs (runTo d cfg sh { t with stack := ⟨T, r, false, k⟩ :: t.stack } (d.body T r)).2 := by
-    refine runTo_spec wf hN cfg sh hi { t with stack := ⟨T, r, false, k⟩ :: t.stack } (d.body T r) cs done cur hout hcs
+  have fallback : SInv d filt (ans d rank) (startLoad d cfg sh { t with stack := ⟨T, r, false, k⟩ :: t.stack } r (d.body T r)).1 ∧
+      (startLoad d cfg sh { t with stack := ⟨T, r, false, k⟩ :: t.stack } r (d.body T r)).1.slots = sh.slots ∧
+      TInv d filt rank N (ans d rank) cs (startLoad d cfg sh { t with stack := ⟨T, r, false, k⟩ :: t.stack } r (d.body T r)).2 := by
+    refine startLoad_spec wf hN cfg sh hi { t with stack := ⟨T, r, false, k⟩ :: t.stack } r (d.body T r) cs done cur hout hcs
       (wf.body T r) ?_
     simp only [StackOK]
     exact ⟨(ans_eq wf T r).symm, hp, hst⟩
@@ -302,7 +326,7 @@ theorem stepT_inv (wf : WF d filt rank) (hN : ∀ r, rank r < N) (hD : N ≤ max
           · have : (r' == r) = false := by simpa using e
             rw [this] at hl
             exact hi.1 r' T' res hl
-        have := runTo_spec wf hN cfg _ hi' ⟨.pushed T r k, ⟨T, r, true, k⟩ :: stack, chain, todo, out⟩ (d.compute T r)
+        have := startLoad_spec wf hN cfg _ hi' ⟨.pushed T r k, ⟨T, r, true, k⟩ :: stack, chain, todo, out⟩ r (d.compute T r)
           cs done cur hout hcs ((wf.body T r).orLog (wf.relog r)) (by
             simp only [StackOK]
             exact ⟨hcomp, hp, hst⟩)
@@ -320,7 +344,7 @@ theorem stepT_inv (wf : WF d filt rank) (hN : ∀ r, rank r < N) (hD : N ≤ max
         rw [hs] at this
         exact ⟨this.2.2, this.1⟩
     · simp only [Option.some.injEq] at hs
-      have := runTo_spec wf hN cfg sh hi ⟨.pushed T r k, ⟨T, r, false, k⟩ :: stack, chain, todo, out⟩ (d.compute T r)
+      have := startLoad_spec wf hN cfg sh hi ⟨.pushed T r k, ⟨T, r, false, k⟩ :: stack, chain, todo, out⟩ r (d.compute T r)
         cs done cur hout hcs ((wf.body T r).orLog (wf.relog r)) (by
           simp only [StackOK]
           exact ⟨hcomp, hp, hst⟩)
@@ -338,6 +362,21 @@ theorem stepT_inv (wf : WF d filt rank) (hN : ∀ r, rank r < N) (hD : N ≤ max
       rw [hs] at this
       exact ⟨this.2.2, this.1⟩
     · simp at hs
+  | logging T r k =>
+    simp only [resid] at hm
+    obtain ⟨cur, hcs, hp, hst, _⟩ := hm
+    simp only [stepT, Option.some.injEq, Prod.mk.injEq] at hs
+    rw [← hs.1, ← hs.2]
+    refine ⟨⟨done, hout, ?_⟩, hi⟩
+    simp only [resid]
+    exact ⟨cur, hcs, hp, hst, by intro res h; cases h⟩
+  | loading r p =>
+    simp only [resid] at hm
+    obtain ⟨cur, hcs, hp, hst, _⟩ := hm
+    simp only [stepT, Option.some.injEq] at hs
+    have := runTo_spec wf hN cfg sh hi ⟨.loading r p, stack, chain, todo, out⟩ p cs done cur hout hcs hp hst
+    rw [hs] at this
+    exact ⟨this.2.2, this.1⟩
   | storing res =>
     simp only [resid] at hm
     obtain ⟨cur, hcs, hp, hst, _⟩ := hm
